@@ -4,7 +4,8 @@ import shutil
 import subprocess
 import tempfile
 
-from fam_generic import Family, run_family
+from fam_generic import Family, run_family, run_families
+from fam_cli import cli_family, ALL_CMDS
 from vcore import SPEC, Undecided
 
 
@@ -31,9 +32,10 @@ ORIGIN = Family(
 )
 
 FASTA = Family(
-    "fasta", "MC_TextIO", "Trace_TextIO", "textio", devs=False,
-    rounds={"quick": [M("fasta", 300, 0, 75, 1, mc=False)],
-            "thorough": [M("fasta", 4000, 0, 100, 1, mc=False)]},
+    "fasta", "MC_TextIO", "Trace_TextIO", "textio", devs=False, case_fam="fasta",
+    # the second round moves record and line ends over the reader's 4096-byte buffer boundary
+    rounds={"quick": [M("fasta", 300, 0, 75, 1, mc=False), M("fasta", 4130, 0, 45, 1, mc=False, minn=3950)],
+            "thorough": [M("fasta", 4500, 0, 100, 1, mc=False), M("fasta", 8300, 0, 50, 1, mc=False, minn=8000)]},
     owns=lambda v: v["rule"].startswith("fasta") or v["rule"].startswith("gbfasta"),
     rule_text=("streams of 1..5 records with residue counts sweeping 0..MaxN (every remainder mod 70), six description "
                "classes, LF and CRLF input, written with NewWriter(FastaFile) and read back with NewAutoScanner; every "
@@ -62,4 +64,5 @@ def run(prop, tier, seed, replay=None):
         if not replay:
             apalache_origin()
         return run_family(ORIGIN, prop, tier, seed, replay)
-    return run_family(FASTA, prop, tier, seed, replay)
+    # "gts <cmd> -F fasta": the multi-site commands with FASTA output (residues of every output record)
+    return run_families([FASTA, cli_family("cli-fasta", ALL_CMDS, quick_stride=2, fasta_only=True)], prop, tier, seed, replay)
